@@ -50,7 +50,8 @@ Outcomes(i) ==
   IN
   IF e.out # "ok" THEN {}
   ELSE CASE e.ev = "AddAtt" ->
-              IF ~WellFormed(e.att) THEN {}
+              IF PosSet(e.att.bits) = {} THEN (IF e.ret = "err" THEN {same} ELSE {})   \* an empty attestation is refused
+              ELSE IF ~WellFormed(e.att) THEN {}
               ELSE {[same EXCEPT !.att = o.P2] : o \in {x \in AttAddOutcomes(att, e.att) : x.ret = e.ret}}
          [] e.ev = "Search" ->
               IF e.ret = "ok" /\ SearchOK(att, e.fs, e.fc, {CoreOf(x) : x \in Range(e.resatts)}) THEN {same} ELSE {}
@@ -74,7 +75,7 @@ Outcomes(i) ==
 \* what the specification would have allowed (diagnostics)
 Expected(i) ==
   LET e == E(i) IN
-  CASE e.ev = "AddAtt" -> {o.ret : o \in AttAddOutcomes(att, e.att)}
+  CASE e.ev = "AddAtt" -> IF PosSet(e.att.bits) = {} THEN {"err"} ELSE {o.ret : o \in AttAddOutcomes(att, e.att)}
     [] e.ev = "Search" -> <<"must", SearchMust(att, e.fs, e.fc), "may", SearchMay(att, e.fs, e.fc)>>
     [] e.ev = "AddKeyed" -> {o.ret : o \in KeyedAddOutcomes(keyed[e.pool], e.key, e.kid)}
     [] e.ev = "All" -> KeyedAll(keyed[e.pool])
